@@ -15,7 +15,7 @@ THEOREMS = ["c19_roundtrip", "c19_table_complete", "c19_force", "c19_created_fix
             "c19_auto_on_self", "c19_auto_on_others"]
 PROFILE = {"weights": {"set_attr": 10, "set_link": 5, "set_auto": 1.5, "force": 2, "create": 8, "append": 3, "remove": 1,
                        "delete": 1, "reopen": 0.8, "lookup": 2, "bad": 0.5, "probe": 0, "probe_link": 0}}
-RULE = ("histories with the library clock replaced by a counter (nixio.util.now_int patched: op i runs at second 1000+i), the "
+RULE = ("histories with the library clock replaced by a counter (nixio.util.now_int patched: op i runs at second 900 + (37 (1000+i) mod 211): the clock jumps back every few operations), the "
         "auto-update switch toggled at random points and kept across reopen, every modelled setter on every entity kind, "
         "force_created_at/force_updated_at with boundary and random seconds in [0, 2100); created_at/updated_at of EVERY entity "
         "are part of the walk compared with the model after every operation, and the trace predicates below are applied to the "
@@ -34,7 +34,7 @@ def predicate(h):
         if i == 0:
             continue
         prev, cur = h["infos"][i - 1].get("stamps", {}), h["infos"][i].get("stamps", {})
-        now = 1000 + i
+        now = 900 + ((1000 + i) * 37) % 211          # nixrun.clock_of / Observe.clock_of
         forced = None
         if op[0] == "force" and res[0] == "ok":
             forced = (h["handle_ids"][i] if "handle_ids" in h else None, op[2], op[3])
